@@ -375,8 +375,17 @@ func genC09(r *rand.Rand, run int, tier string) *vm.Plan {
 	tb := h.send(t)
 	for _, az := range h.az {
 		az := az
+		// a third of the comparisons under limits that matter: whatever the verifier configures
+		// applies to the sealed token exactly as to the open one
+		lim := &vm.Lim{MaxDurNs: 1e9}
+		switch r.Intn(6) {
+		case 0:
+			lim.MaxFacts = 2 + r.Intn(12)
+		case 1:
+			lim.MaxIter = 1 + r.Intn(2)
+		}
 		for _, x := range []int{t, s, rs} {
-			h.add(vm.Op{K: "verify", A: x, KS: &vm.KeySel{Key: key}, Az: &az, Lim: &vm.Lim{MaxDurNs: 1e9}})
+			h.add(vm.Op{K: "verify", A: x, KS: &vm.KeySel{Key: key}, Az: &az, Lim: lim})
 		}
 	}
 	// the holder that seals may have received the token over the wire: seal the reloaded object,
